@@ -171,7 +171,7 @@ def run(ctx):
     if not harness_stage(ctx):
         return ctx.finish(CMD)
     rng = ctx.rng
-    surv = bare_doubles(ctx, 2000000 if th else 60000)
+    surv = bare_doubles(ctx, 2000000 if th else 200000)
     pool = surv[:200000]
 
     def fl_surv(r):
@@ -184,7 +184,7 @@ def run(ctx):
             if 1e-6 < abs(x) < 1e6:
                 return x
         return r.choice(J.SAFE)
-    n = 15000 if th else 300
+    n = 15000 if th else 1000
     # (a) tree shape, tagged and direct
     objs_a = gen_objects(ctx, n, J.full_float, "enc (full doubles)")
     check_enc(ctx, objs_a)
